@@ -186,6 +186,16 @@ PROPERTIES = {
         ],
         "targets": [{"name": "c16_tmm", "src": "c16_threshold_morph.cpp", "mode": "asan", "rapidcheck": True, "flags": ['-DVERIF_TARGET_NAME="c16_tmm"'], "subtargets": ["thresh", "otsu", "morph", "median"]}],
     },
+    "C17": {
+        "level": "exploration",
+        "assumptions": [
+            "sample points stay within [-2.5, n+1.5] per axis (the quantifier's window); converting a coordinate beyond the range of ptrdiff_t is outside the statement",
+            "'surrounding pixels' of a point within one pixel of the border are the clamped neighbours (the sampler's documented border cases); nearest-neighbour ties at exact half-way points may round either way when the point is within 1e-6 of the tie",
+            "integral results may differ from exact bilinear interpolation by at most 1 (0.5 after the rounding fix plus float error); float32 channels by 1e-5",
+            "inverse is checked for |det| >= 0.25 with tolerances scaled by 1/|det|",
+        ],
+        "targets": [{"name": "c17_sampling", "src": "c17_sampling.cpp", "mode": "asan", "rapidcheck": True, "flags": ['-DVERIF_TARGET_NAME="c17_sampling"'], "subtargets": ["sample", "resample", "affine"]}],
+    },
     "C13": {
         "level": "exploration",
         "assumptions": [
